@@ -75,6 +75,27 @@ fn one_mask<CS: BbsCiphersuite>(
         Err(e) => return rep.fail(ck, "proof-roundtrip-decode", format!("{:?}", e), cj()),
     }
     rep.eval(ck, 2);
+    // the serde encoding of the proof object (the crate derives Serialize / Deserialize for it) is the other
+    // encode/decode round trip a holder can use
+    if l <= 40 {
+        let js = match serde_json::to_string(&proof) {
+            Ok(j) => j,
+            Err(e) => return rep.fail(ck, "proof-json-encode", format!("{}", e), cj()),
+        };
+        match serde_json::from_str::<PoKSignature<BBSplus<CS>>>(&js) {
+            Ok(p3) => {
+                if p3 != proof {
+                    return rep.fail(ck, "proof-json-roundtrip-neq", "from_str(to_string(proof)) != proof".into(), cj());
+                }
+                if let Err(e) = p3.proof_verify(pk, dm_arg, idx_arg, header, ph) {
+                    return rep.fail(ck, "proof-json-roundtrip-verify", format!("{:?}", e), cj());
+                }
+            }
+            Err(e) => return rep.fail(ck, "proof-json-roundtrip-decode", format!("serde_json cannot read back the proof it wrote: {}", e), cj()),
+        }
+        rep.eval(ck, 2);
+        rep.class("json-roundtrip");
+    }
     let fixture_mask = (l == 1 && idx == [0]) || (l == 10 && (idx.len() == 10 || idx == [0, 2, 4, 6]));
     if !fixture_mask {
         rep.nontrivial(ck, &json!({"c": c, "idx": idx}));
@@ -217,7 +238,7 @@ pub fn run(ctx: &Ctx, rep: &Report) -> Meta {
     Meta {
         rule: "honest signature x header x ph x disclosure mask: ALL 2^L masks for L = 0..=6 (quick) / 0..=10 (thorough) under both suites and three header/ph classes, \
                plus class-sampled masks (none, all, first, last, all-but-last, evens, only-22, all-but-22, random half/sparse/dense) for L in {7..257, 1000}; \
-               every L in 7..=72 (quick) / 7..=200 (thorough) with the class masks, the fixed cases under contention, verification repeated on a freshly started thread, half of the cases after a warm-up history; oracle: proof_gen Ok, proof_verify Ok with exactly msgs|D, equal object and Ok after from_bytes(to_bytes()), length = 272 + 32*U; production randomness path; \
+               every L in 7..=72 (quick) / 7..=200 (thorough) with the class masks, the fixed cases under contention, verification repeated on a freshly started thread, half of the cases after a warm-up history; oracle: proof_gen Ok, proof_verify Ok with exactly msgs|D, equal object and Ok after from_bytes(to_bytes()) and (L <= 40) after serde_json, length = 272 + 32*U; production randomness path; \
                non-trivial = (L, mask) outside the three fixture disclosure sets; evaluations = proof verifications + decode checks"
             .into(),
         assumptions: vec!["index lists handed to the library are ascending and duplicate-free (documented precondition)".into()],
